@@ -46,6 +46,8 @@ def alphabet(v: int) -> dict[str, tuple]:
         "create_study": ("create_study", "X"),
         "delete_study": ("delete_study", "s"),
         "get_all_trials": ("get_all_trials", "s", False, None),
+        # the deep-copying read: the copy is pure Python and can be pre-empted between two trials
+        "get_all_dc": ("get_all_trials", "s", True, None),
         "get_waiting": ("get_all_trials", "s", False, (S.WAITING,)),
         "get_trial": ("get_trial", "t_run"),
         "get_n_trials": ("get_n_trials", "s"),
@@ -99,10 +101,14 @@ def scenarios(tier: str) -> list[tuple]:
         for sh in range(12 if slow else 1):
             out.append((cfg, (("get_all_trials",), ("finish", "get_all_trials")), 2) + (((sh, 12),) if slow else ()))
         out.append((cfg, (("get_trial",), ("user_attr", "get_trial")), 2))
+        # a snapshot taken while another thread does two ordered writes on different trials must
+        # not show the second write without the first
+        out.append((cfg, (("get_all_dc",), ("finish", "claim")), 1 if tier == "quick" else 2))
     # Part B: processes / threads at SQL-statement level on one SQLite file
     for cfg in SQL_CONFIGS:
         bound = 1 if tier == "quick" else 2
         names = NAMES if tier == "thorough" else (QUICK_NAMES if cfg == "rdb-procs" else ["create_trial", "claim", "finish", "user_attr", "get_all_trials", "get_waiting"])
+        names = [n for n in names if n != "get_all_dc"]  # processes: the copy is private to the reader
         for i, a in enumerate(names):
             for b in names[i:]:
                 if a == b and a in NO_SELF_PAIR:
@@ -229,6 +235,9 @@ def scenario_task(task: tuple) -> dict:
         engine = "procx-sql"
     else:
         mods = [importlib.import_module(m) for m in THREAD_CONFIGS[cfg]]
+        from . import thx as _thx
+
+        _thx.install_copy_points()
         sc = Scenario(cfg, "std", build_programs(names), mods)
         engine = "thx"
     outcomes: set = set()
@@ -279,7 +288,7 @@ def scenario_task(task: tuple) -> dict:
         part.add("scenarios")
     part.add("states", len({o[:2] for o in outcomes}))  # distinct observable outcomes
     part.add("traces_validated_against_impl", len(sc._seq_cache))
-    if len(outcomes) == 1 and len({n for p in names for n in p} & {"get_trial", "get_n_trials", "get_best", "get_all_trials", "get_waiting"}) == 0 and names[0] != names[1 % len(names)]:
+    if len(outcomes) == 1 and len({n for p in names for n in p} & {"get_trial", "get_n_trials", "get_best", "get_all_trials", "get_all_dc", "get_waiting"}) == 0 and names[0] != names[1 % len(names)]:
         part.note(f"single outcome for {cfg} {names}")
     part.setmax("max_points", st["max_points"])
     if part.cov.get("executions", 0) and len(part.samples) == 0:
@@ -329,7 +338,7 @@ def run(tier: str, replay: str | None = None) -> int:
     backends.cleanup_root()
     return ctx.finish(
         exhaustive=not ctx.cov.get("caps_hit"),
-        rule="all schedules up to the preemption bound of every unordered pair of the 15-op alphabet (2 threads x 1 op) plus curated 2x2 and 3x1 programs, per configuration; states = distinct observable outcomes",
+        rule="all schedules up to the preemption bound of every unordered pair of the 16-op alphabet (2 threads x 1 op) plus curated 2x2 and 3x1 programs, per configuration; states = distinct observable outcomes",
         extra={"preemption_bound": {"quick": "pairs: mem 2, jlist/grpc(mem)/cached 1; 2x2 and 3x1 programs: 1", "thorough": "pairs: 3 (cached 2); 2x2/3x1: 2"}[tier]},
     )
 
